@@ -2774,7 +2774,7 @@ class XonshParser(Parser):
             return fstring_replacement_field
         self._reset(mark)
         if t := self.token("FSTRING_MIDDLE"):
-            return ast.Constant(value=t.string, **self.span(_lnum, _col))
+            return ast.Constant(value=t.string.replace("\r\n", "\n"), **self.span(_lnum, _col))
         self._reset(mark)
         return None
 
@@ -2826,7 +2826,7 @@ class XonshParser(Parser):
         mark = self._mark()
         _lnum, _col = self._tokenizer.peek().start
         if t := self.token("FSTRING_MIDDLE"):
-            return ast.Constant(value=t.string, **self.span(_lnum, _col))
+            return ast.Constant(value=t.string.replace("\r\n", "\n"), **self.span(_lnum, _col))
         self._reset(mark)
         if fstring_replacement_field := self.fstring_replacement_field():
             return fstring_replacement_field
